@@ -31,7 +31,8 @@ struct Ctx {
 
 impl Ctx {
     /// Run one pass on one tree over one database and emit the case.
-    /// pass: 0 optimizer, 1 join planner, 2 boolean specializer, 3 planner+specializer+optimizer
+    /// pass: 0 optimizer, 1 join planner, 2 boolean specializer, 3 planner+specializer+optimizer,
+    /// 4 planner+optimizer
     fn emit(&mut self, pass: u8, intended_wf: bool, rels: &[(String, Vec<Tuple>)], t: &IRNode, tags: &[&str], origin: &str) {
         let t0 = t.clone();
         let out: Result<(IRNode, Option<SemiringType>), String> = catch(std::panic::AssertUnwindSafe(move || match pass {
@@ -41,11 +42,12 @@ impl Ctx {
                 let (t1, ann) = BooleanSpecializer::new().specialize(t0);
                 (t1, Some(ann.semiring))
             }
-            _ => {
+            3 => {
                 let t1 = JoinPlanner::new().plan_joins(t0);
                 let (t2, ann) = BooleanSpecializer::new().specialize(t1);
                 (Optimizer::new().optimize(t2), Some(ann.semiring))
             }
+            _ => (Optimizer::new().optimize(JoinPlanner::new().plan_joins(t0)), None),
         }));
         let r_in = exec_ir(t, rels, None);
         let (topt, r_out) = match &out {
@@ -74,7 +76,7 @@ impl Ctx {
         };
         let n_in = r_in.as_ref().map(|v| v.len()).unwrap_or(0);
         let changed = topt.as_ref().map(|t1| t1 != t).unwrap_or(false);
-        let pass_name = ["Optimizer::optimize", "JoinPlanner::plan_joins", "BooleanSpecializer::specialize", "plan_joins;specialize;optimize"][pass as usize];
+        let pass_name = ["Optimizer::optimize", "JoinPlanner::plan_joins", "BooleanSpecializer::specialize", "plan_joins;specialize;optimize", "plan_joins;optimize"][pass as usize];
         let desc = serde_json::json!({
             "origin": origin, "pass": pass_name,
             "db": rels.iter().map(|(r, ts)| format!("{} = {:?}", r, ts)).collect::<Vec<_>>(),
@@ -247,6 +249,54 @@ fn main() {
         }
     }
 
+    // a right atom that repeats the join variable, under the join planner (found by the C02 check)
+    {
+        let rels = vec![
+            ("e2".to_string(), vec![tup(&[2]), tup(&[1]), tup(&[0])]),
+            ("e3".to_string(), vec![tup(&[2, 2, 2]), tup(&[1, 2, 1]), tup(&[0, 0, 5])]),
+        ];
+        let src = "q(X1) <- e2(X0), e3(X0, X0, X1)";
+        if let Some(t) = build_ir(src, &rels) {
+            for pass in [0u8, 1, 3] {
+                cx.emit(pass, true, &rels, &t, &["corpus", "builder", "repeated-join-variable"], src);
+            }
+        }
+        let rels = vec![
+            ("e0".to_string(), vec![tup(&[2, 0]), tup(&[0, 2]), tup(&[3, 3]), tup(&[0, 3]), tup(&[2, 1]), tup(&[2, 3]), tup(&[3, 0])]),
+            ("e1".to_string(), vec![tup(&[0, 3]), tup(&[2, 3]), tup(&[0, 1]), tup(&[0, 0]), tup(&[3, 1])]),
+        ];
+        let src = "q(X1, X0) <- e0(X0, X1), e1(X0, X0)";
+        if let Some(t) = build_ir(src, &rels) {
+            for pass in [1u8, 3, 4] {
+                cx.emit(pass, true, &rels, &t, &["corpus", "builder", "repeated-join-variable"], src);
+            }
+        }
+        let rels = vec![
+            ("e2".to_string(), vec![tup(&[2]), tup(&[1]), tup(&[0])]),
+            ("e0".to_string(), vec![tup(&[2, 2]), tup(&[1, 2]), tup(&[0, 0])]),
+            ("e1".to_string(), vec![tup(&[2, 2]), tup(&[1, 1]), tup(&[0, 5])]),
+        ];
+        let src = "q(X1) <- e2(X0), e0(X0, X0), e1(X0, X1)";
+        if let Some(t) = build_ir(src, &rels) {
+            for pass in [1u8, 3, 4] {
+                cx.emit(pass, true, &rels, &t, &["corpus", "builder", "repeated-join-variable"], src);
+            }
+        }
+        let src = "q(X, Z, count<Y>) <- r3(W), r2(W, \"a\", W), r1(X, W), r0(X, Z), r1(Y, Z), Y > 2";
+        let i = |x: i64| Value::Int64(x);
+        let rels = vec![
+            ("r0".to_string(), vec![tup(&[0, 2]), tup(&[3, 2]), tup(&[0, 1])]),
+            ("r1".to_string(), vec![tup(&[1, 6]), tup(&[2, 3]), tup(&[3, 2])]),
+            ("r2".to_string(), vec![Tuple::new(vec![i(2), Value::String("a".into()), i(2)]), Tuple::new(vec![i(1), Value::String("a".into()), i(0)])]),
+            ("r3".to_string(), vec![tup(&[2]), tup(&[3])]),
+        ];
+        if let Some(t) = build_ir(src, &rels) {
+            for pass in [1u8, 3] {
+                cx.emit(pass, true, &rels, &t, &["corpus", "builder", "repeated-variable-in-atom"], src);
+            }
+        }
+    }
+
     // ------------------------------------------------------------ random
     for case_no in 0..args.n {
         let db = gen_db(&mut rng);
@@ -256,7 +306,7 @@ fn main() {
             let depth = rng.range(1, 5) as u32;
             let mut g = Gen::new(&mut rng, &db);
             g.allow_void = case_no % 8 == 5;
-            g.allow_dup_keys = case_no % 16 == 9;
+            g.allow_dup_keys = case_no % 8 == 1;
             let (mut t, _tys) = g.gen_tree(depth);
             let kinds = g.kinds.clone();
             let void = g.allow_void;
@@ -279,9 +329,9 @@ fn main() {
             if !wf {
                 tags.push("malformed");
             }
-            cx.emit(0, wf && !dup, &rels, &t, &tags, "random tree");
+            cx.emit(0, wf, &rels, &t, &tags, "random tree");
             if case_no % 5 == 0 && wf {
-                cx.emit(2, wf && !dup, &rels, &t, &tags, "random tree");
+                cx.emit(2, wf, &rels, &t, &tags, "random tree");
             }
         } else {
             // rule text -> real IRBuilder -> every pass
@@ -303,7 +353,7 @@ fn main() {
             match build_ir(&src, &rels) {
                 Some(t) => {
                     cx.sink.tally("builder:ok");
-                    for pass in [0u8, 1, 2, 3] {
+                    for pass in [0u8, 1, 2, 3, 4] {
                         cx.emit(pass, true, &rels, &t, &["builder"], &src);
                     }
                 }
